@@ -366,7 +366,7 @@ def gen_cases(rnd, n_streams, n_sweeps):
     for _ in range(3):
         valids.append(sg.valid_big())
     mut_kinds = ["truncate", "inflate", "deflate", "type", "tag", "nest", "count", "version", "version0", "flip",
-                 "trailing", "textlen", "cutvalue", "cutvalue"]
+                 "trailing", "textlen", "cutvalue", "cutvalue", "emptystring"]
 
     def bad():
         if rnd.random() < 0.12:
